@@ -218,6 +218,10 @@ class RefExec:
         if fname == "__typename":
             return obj_type
         if fname in ("__schema", "__type") and obj_type == self.s.query:
+            if getattr(self.s, "non_introspectable", False):
+                # `schema @nonIntrospectable`: the introspection field fails; __schema is non-null, __type nullable
+                t = NN(N("__Schema")) if fname == "__schema" else N("__Type")
+                return self.position(t, path, lambda: self.fail(path, "introspection-disabled", nodes))
             return self.introspect(nodes)
         f = self.s.types[obj_type].fields.get(fname)
         if f is None:
